@@ -24,7 +24,9 @@ def gen_expr(rng, depth):
   if depth <= 0 or rng.random() < 0.25:
     return ['lit', rng.randrange(-5, 10)]
   k = rng.choice(['add', 'mul', 'neg', 'boxget', 'boxitem', 'boxcall',
-                  'boxplus', 'len', 'raise', 'boxfail'])
+                  'boxplus', 'len', 'raise', 'boxfail', 'kwadd'])
+  if k == 'kwadd':
+    return [k, gen_expr(rng, depth - 1), gen_expr(rng, depth - 1)]
   if k in ('add', 'mul'):
     return [k, gen_expr(rng, depth - 1), gen_expr(rng, depth - 1)]
   if k == 'neg':
@@ -43,7 +45,9 @@ def gen_expr(rng, depth):
     if rng.random() < 0.6:
       return ['lit', rng.randrange(0, 5)]
     return [k, rng.choice(['ValueError', 'KeyError', 'ZeroDivisionError',
-                           'RuntimeError']), f'm{rng.randrange(100)}']
+                           'RuntimeError', 'TimeoutError', 'TypeError',
+                           'OSError', 'LookupError', 'AssertionError',
+                           'CustomError']), f'm{rng.randrange(100)}']
   if k == 'boxfail':
     if rng.random() < 0.6:
       return ['lit', rng.randrange(0, 5)]
@@ -74,9 +78,13 @@ def py_eval(e):
   if k == 'len':
     return len(L.mklist(e[1]))
   if k == 'raise':
-    return L.boom(e[1], e[2])
+    return L.boom2(e[1], e[2])
   if k == 'boxfail':
     return L.Box(py_eval(e[1])).fail()
+  if k == 'kwadd':
+    return L.kw_add(a=py_eval(e[1]), b=py_eval(e[2]))
+  if k == 'ident':
+    return L.ident(e[1])
   raise AssertionError(k)
 
 
@@ -105,9 +113,13 @@ def lazy(e):
   if k == 'len':
     return t(len)(t(L.mklist)(e[1]))
   if k == 'raise':
-    return t(L.boom)(e[1], e[2])
+    return t(L.boom2)(e[1], e[2])
   if k == 'boxfail':
     return t(L.Box)(lazy(e[1])).fail()
+  if k == 'kwadd':
+    return t(L.kw_add)(a=lazy(e[1]), b=lazy(e[2]))
+  if k == 'ident':
+    return t(L.ident)(e[1])
   raise AssertionError(k)
 
 
@@ -139,6 +151,7 @@ def expected(op):
 class RemoteFamily(common.Family):
   prop = 'C14'
   name = 'remote'
+  max_steps = 3_000_000
 
   def gen(self, rng, tier):
     nclients = rng.choice([1, 2, 2, 3])
@@ -149,8 +162,20 @@ class RemoteFamily(common.Family):
         kind = rng.choice(['eval', 'eval', 'eval', 'async_eval', 'robj',
                            'iter', 'queue'])
         if kind in ('eval', 'async_eval'):
-          ops.append({'op': kind, 'expr': gen_expr(rng, rng.randrange(1, 4)),
-                      'cache': rng.random() < 0.3})
+          if rng.random() < 0.2:
+            # values that are falsy / not integers, returned as they are
+            # (no False / 0.0 next to 0: cached lazy calls compare their
+            # arguments with ==, so ident(0) and ident(False) share a cache
+            # entry - locally as well; that is cache semantics, not C14)
+            expr = ['ident', rng.choice([0, '', [], None, {}, 'txt',
+                                         [1, [2, 3]], {'k': [1, 2]}])]
+          elif rng.random() < 0.15:
+            expr = ['raise', rng.choice(['TimeoutError', 'TypeError', 'OSError',
+                                         'CustomError', 'AssertionError']),
+                    f'top{rng.randrange(100)}']
+          else:
+            expr = gen_expr(rng, rng.randrange(1, 4))
+          ops.append({'op': kind, 'expr': expr, 'cache': rng.random() < 0.3})
         elif kind == 'robj':
           ops.append({'op': 'robj', 'v': rng.randrange(0, 6),
                       'k': rng.randrange(0, 4), 'i': rng.randrange(0, 4),
